@@ -39,6 +39,15 @@ CHECKS['C14']=dict(level='exploration', ref='4.14', technique='deterministic sim
 CHECKS['C09']=dict(level='exploration', ref='4.9', technique='deterministic simulation: seeded cooperative scheduler (testing/synctest bubble) interleaving the errgroup workers the library starts itself, Go map order replaced by the seed through a hook, same request repeated K times per run',
    text='Each request (content x candidate list x origin coding x protocol) is built 2..8 times in one run under seed-chosen candidate-slice order and worker interleaving, with a second task hammering the shared pools; all results must be identical, the winner must need the fewest parts among the candidates the reference repertoire check accepts (ties by priority), UCS-2 fallback otherwise, and the parts must decode to the content.',
    note='Between two yield sites a task runs atomically; candidates of the wrong protocol type are out of contract and not generated; tie-break priority is read through the public Priority() accessor.')
+CHECKS['C10']=dict(level='exploration', ref='4.10', technique='deterministic simulation with a simulated clock (testing/synctest bubble): pipelined requests, seed-chosen processing delays so that responses overtake each other, exactly-once pairing oracle over the history; command-id space of every dispatcher enumerated',
+   text='A client pipelines 1..64 requests of every request type (edge sequence numbers, all three SGIP words, three bind flavours, constructor-built logins that read the simulated clock); the server dispatches, generates and encodes the response after a seed-chosen delay while the clock advances; the client dispatches and pairs by sequence id. Response type, sequence words and command id of the encoded header, GetCommand vs header, SetSequenceID visibility and dispatcher consistency are checked; command ids 0..0x11f and 0x80000000..0x8000011f are enumerated per dispatcher.',
+   note='The request/response table comes from the specification tables; the 2^32 id space is sampled outside the enumerated ranges.')
+CHECKS['C11']=dict(level='exploration', ref='4.11', technique='deterministic simulation of a two-hop relay (peer -> relay gateway -> receiver) over seeded links; canonical, conformant and accepted-but-non-canonical images; emission order of optional parameters chosen by the seed',
+   text='Images of all 57 types (library-encoded canonical ones, model-peer conformant ones, and non-canonical variants with junk after NULs, duplicate tags, extreme values, maximum-length optional values, trailing octets, substituted count octets) are decoded and re-encoded by a relay node and decoded again by a receiver: whatever was accepted must re-encode without error or panic, the second decode must equal the first, and canonical images must be reproduced bit-for-bit (optional parameters as a set).',
+   note='The one-time CMPP 2.0 0/0 -> 1/1 part-counter default is allowed; SMGP submit-response / deliver ids (raw on encode, hex on decode) are a listed known finding.')
+CHECKS['C15']=dict(level='exploration', ref='4.15', technique='deterministic simulation with a simulated clock (testing/synctest bubble) and zone: constructor-built logins cross the link, both peers verify with an independent MD5; credential search for digests containing 0x00',
+   text='The clock is moved to a seed-chosen instant and zone, the real constructors build the login (or it is built from fields for timestamps no clock produces), it is encoded, framed and decoded at the server, which recomputes the digest with crypto/md5, answers, and the client verifies the server authenticator independently; correct credentials must verify in both directions, a wrong secret must not, and the wire octets must be the digest the protocol defines. Secrets are searched so that digests contain or end in 0x00.',
+   note='Digests whose last octet is 0x00 are a listed known finding (trailing NULs are stripped on decode, pinned by the suite).')
 PENDING = {}
 def load_extra():
     try:
